@@ -223,8 +223,12 @@ class World:
                     d["version"] = "0.0.1"
                 elif flavour == 1:
                     d.pop("version", None)
-                else:
+                elif flavour == 2:
                     d["version"] = None
+                elif flavour == 3:      # a different release whose number merely EXTENDS this one (0.18.1 -> 0.18.10)
+                    d["version"] = tool_version() + "0"
+                else:
+                    d["version"] = tool_version() + ".dev1"
                 self.cache_file.write_text(json.dumps(d, indent=2))
             elif k == "AlterChecksum":
                 d = json.loads(self.cache_file.read_text())
